@@ -1,6 +1,7 @@
 package c10
 
 import (
+	"bytes"
 	"fmt"
 	"math"
 	"sort"
@@ -415,7 +416,52 @@ func check(c *pbt.Ctx, cs Case) {
 	root := generic.NewRootValue(desc, append(make([]byte, 0, len(cs.Msg)+16), cs.Msg...))
 
 	// DOM load + marshal of the current state must preserve the message
+	// one more tree is kept across the whole history and loaded in alternating modes (Load resets what it held before)
+	var reused generic.PathNode
+	reuseN := 0
+	// bytes returned by earlier Marshal calls stay what they were while later calls marshal other states
+	type heldOut struct {
+		out, copy []byte
+		when      string
+	}
+	var held []heldOut
+	hold := func(out []byte, when string) {
+		for _, h := range held {
+			if !bytes.Equal(h.out, h.copy) {
+				c.Failf("dom-result-overwritten", "the bytes Marshal returned %s changed while a later state was marshalled (%s)\n now %x\n was %x", h.when, when, h.out, h.copy)
+			}
+		}
+		if len(held) < 4 {
+			held = append(held, heldOut{out, append([]byte(nil), out...), when})
+		}
+	}
 	dom := func(when string) {
+		{
+			recurse := reuseN%2 == len(cs.Msg)&1
+			reuseN++
+			c.Step("DOM reused tree Load(recurse=%v)+Marshal %s", recurse, when)
+			c.Protect("dom-reuse", func() {
+				reused.Node = root.Node
+				if err := reused.Load(recurse, &generic.Options{}, desc); err != nil {
+					c.Fail("dom-reuse", "dom-load-error", "%s: Load(recurse=%v) into a reused tree: %v", when, recurse, err)
+					return
+				}
+				out, err := reused.Marshal(&generic.Options{})
+				if err != nil {
+					c.Fail("dom-reuse", "dom-marshal-error", "%s: Marshal of a reused tree: %v", when, err)
+					return
+				}
+				hold(out, when)
+				back, derr := pmodel.Unmarshal(md, out)
+				if derr != nil {
+					c.Fail("dom-reuse", "dom-malformed", "%s: Marshal(Load(x), recurse=%v) of a reused tree is rejected by the reference: %v\n in  %x\n out %x", when, recurse, derr, root.Raw(), out)
+					return
+				}
+				if !proto.Equal(back, model) {
+					c.Fail("dom-reuse", "dom-different-message", "%s: Marshal(Load(x), recurse=%v) of a reused tree decodes to a different message\n got  %v\n want %v", when, recurse, back, model)
+				}
+			})
+		}
 		for _, recurse := range []bool{false, true} {
 			c.Step("DOM Load(recurse=%v)+Marshal %s", recurse, when)
 			reg := ""
